@@ -68,6 +68,9 @@ def bin_plain(fn, op, types, opfn, props, divguard=True):
         vs = "(forall i :: 0 <= i && i < len(%s) && %strue ==> %s[i] == %s(old(%s[i]), old(%s[0])))" % (av, g("%s[0]" % bv), av, f, av, bv)
         w('//@   ensures [arm_%s] t == rtype("%s") ==> ((len(%s) != 1 && len(%s) != 1) || (len(%s) == 1 && len(%s) == 1) ==> %s) && (len(%s) == 1 && len(%s) != 1 ==> %s) && (len(%s) != 1 && len(%s) == 1 ==> %s)'
           % (T, T, av, bv, av, bv, vv, av, bv, sv, av, bv, vs))
+    for T in types:
+        av, bv = V("a", T), V("b", T)
+        w('//@   ensures [b_kept_%s] t == rtype("%s") && !(len(%s) == 1 && len(%s) != 1) && a.Raw.arr != b.Raw.arr ==> unchanged(%s)' % (T, T, av, bv, bv))
     unsupported(types)
     assigns(["a", "b"], types)
     w("")
@@ -116,7 +119,7 @@ def bin_iter(fn, op, types, schema_of, props, vvplain):
     header(fn, props)
     lets(["a", "b"], types)
     alias_req("a", "b")
-    w('//@   requires [pos] gh("it_pos", ait) >= 0 && gh("it_pos", bit) >= 0 && ait.val != bit.val')
+    w('//@   requires [pos] gh("it_pos", ait) == 0 && gh("it_pos", bit) == 0 && ait.val != bit.val')
     for T in types:
         av, bv = V("a", T), V("b", T)
         w('//@   requires [range_%s] t == rtype("%s") ==> (forall p :: 0 <= p && p < it_len(ait) ==> 0 <= it_seq(ait, p) && it_seq(ait, p) < len(%s)) && (forall p :: 0 <= p && p < it_len(bit) ==> 0 <= it_seq(bit, p) && it_seq(bit, p) < len(%s))' % (T, T, av, bv))
@@ -129,6 +132,9 @@ def bin_iter(fn, op, types, schema_of, props, vvplain):
         vv = summ(sfx("iter"), op, av, [bv], [], ["ait", "bit"])
         w('//@   ensures [arm_%s] t == rtype("%s") ==> (len(%s) == 1 && len(%s) == 1 ==> %s) && (len(%s) == 1 && len(%s) != 1 ==> %s) && (len(%s) != 1 && len(%s) == 1 ==> %s) && (len(%s) != 1 && len(%s) != 1 ==> %s)'
           % (T, T, av, bv, both, av, bv, sv, av, bv, vs, av, bv, vv))
+    for T in types:
+        av, bv = V("a", T), V("b", T)
+        w('//@   ensures [b_kept_%s] t == rtype("%s") && !(len(%s) == 1 && len(%s) != 1) && a.Raw.arr != b.Raw.arr ==> unchanged(%s)' % (T, T, av, bv, bv))
     unsupported(types)
     assigns(["a", "b"], types, ', gh("it_pos", ait), gh("it_pos", bit)')
     w("")
@@ -154,7 +160,7 @@ for op, types in UN_T.items():
     w("")
     header(op + "Iter", "C12 C17")
     lets(["a"], types)
-    w('//@   requires [pos] gh("it_pos", ait) >= 0')
+    w('//@   requires [pos] gh("it_pos", ait) == 0')
     for T in types:
         av = V("a", T)
         w('//@   requires [range_%s] t == rtype("%s") ==> (forall p :: 0 <= p && p < it_len(ait) ==> 0 <= it_seq(ait, p) && it_seq(ait, p) < len(%s))' % (T, T, av))
@@ -204,6 +210,9 @@ for op, types in CMP_T.items():
         vs = "(forall i :: 0 <= i && i < len(%s) ==> %s[i] == %s)" % (av, av, r("old(%s[i])" % av, "old(%s[0])" % bv))
         w('//@   ensures [arm_%s] t == rtype("%s") ==> ((len(%s) != 1 && len(%s) != 1) || (len(%s) == 1 && len(%s) == 1) ==> %s) && (len(%s) == 1 && len(%s) != 1 ==> %s) && (len(%s) != 1 && len(%s) == 1 ==> %s)'
           % (T, T, av, bv, av, bv, vv, av, bv, sv, av, bv, vs))
+    for T in stypes:
+        av, bv = V("a", T), V("b", T)
+        w('//@   ensures [b_kept_%s] t == rtype("%s") && !(len(%s) == 1 && len(%s) != 1) && a.Raw.arr != b.Raw.arr ==> unchanged(%s)' % (T, T, av, bv, bv))
     unsupported(stypes)
     assigns(["a", "b"], stypes)
     w("")
@@ -216,7 +225,7 @@ for op, types in CMP_T.items():
     lets(["a", "b"], types)
     w('//@   let rv = tview("bool", retVal)')
     w("//@   requires [alias_r] retVal.Raw.arr != a.Raw.arr && retVal.Raw.arr != b.Raw.arr")
-    w('//@   requires [pos] gh("it_pos", ait) >= 0 && gh("it_pos", bit) >= 0 && gh("it_pos", rit) >= 0 && ait.val != bit.val && ait.val != rit.val && bit.val != rit.val')
+    w('//@   requires [pos] gh("it_pos", ait) == 0 && gh("it_pos", bit) == 0 && gh("it_pos", rit) == 0 && ait.val != bit.val && ait.val != rit.val && bit.val != rit.val')
     w("//@   requires [range_r] forall p :: 0 <= p && p < it_len(rit) ==> 0 <= it_seq(rit, p) && it_seq(rit, p) < len(rv)")
     for T in types:
         av, bv = V("a", T), V("b", T)
@@ -235,7 +244,7 @@ for op, types in CMP_T.items():
     header(op + "SameIter", "C11 C17")
     lets(["a", "b"], stypes)
     alias_req("a", "b")
-    w('//@   requires [pos] gh("it_pos", ait) >= 0 && gh("it_pos", bit) >= 0 && ait.val != bit.val')
+    w('//@   requires [pos] gh("it_pos", ait) == 0 && gh("it_pos", bit) == 0 && ait.val != bit.val')
     for T in stypes:
         av, bv = V("a", T), V("b", T)
         w('//@   requires [range_%s] t == rtype("%s") ==> (forall p :: 0 <= p && p < it_len(ait) ==> 0 <= it_seq(ait, p) && it_seq(ait, p) < len(%s)) && (forall p :: 0 <= p && p < it_len(bit) ==> 0 <= it_seq(bit, p) && it_seq(bit, p) < len(%s))' % (T, T, av, bv))
@@ -247,6 +256,9 @@ for op, types in CMP_T.items():
         vv = summ("cmp_sameiter", op, av, [bv], [], ["ait", "bit"])
         w('//@   ensures [arm_%s] t == rtype("%s") ==> (len(%s) == 1 && len(%s) == 1 ==> %s) && (len(%s) == 1 && len(%s) != 1 ==> %s) && (len(%s) != 1 && len(%s) == 1 ==> %s) && (len(%s) != 1 && len(%s) != 1 ==> %s)'
           % (T, T, av, bv, both, av, bv, sv, av, bv, vs, av, bv, vv))
+    for T in stypes:
+        av, bv = V("a", T), V("b", T)
+        w('//@   ensures [b_kept_%s] t == rtype("%s") && !(len(%s) == 1 && len(%s) != 1) && a.Raw.arr != b.Raw.arr ==> unchanged(%s)' % (T, T, av, bv, bv))
     unsupported(stypes)
     assigns(["a", "b"], stypes, ', gh("it_pos", ait), gh("it_pos", bit)')
     w("")
@@ -257,7 +269,7 @@ for op in ("Min", "Max"):
     header(op + "BetweenIter", "C06 C17")
     lets(["a", "b"], types)
     alias_req("a", "b")
-    w('//@   requires [pos] gh("it_pos", ait) >= 0 && gh("it_pos", bit) >= 0 && ait.val != bit.val')
+    w('//@   requires [pos] gh("it_pos", ait) == 0 && gh("it_pos", bit) == 0 && ait.val != bit.val')
     for T in types:
         av, bv = V("a", T), V("b", T)
         w('//@   requires [range_%s] t == rtype("%s") ==> (forall p :: 0 <= p && p < it_len(ait) ==> 0 <= it_seq(ait, p) && it_seq(ait, p) < len(%s)) && (forall p :: 0 <= p && p < it_len(bit) ==> 0 <= it_seq(bit, p) && it_seq(bit, p) < len(%s))' % (T, T, av, bv))
@@ -273,6 +285,53 @@ for op in ("Min", "Max"):
     assigns(["a", "b"], types, ', gh("it_pos", ait), gh("it_pos", bit)')
     w("")
 
+# ---------------- binary arithmetic with a separate destination: Incr (dest += a op b) and Recv (dest = a op b) ----------------
+def bin_dest(fn, op, types, dest, incr):
+    header(fn, "C06 C07 C17")
+    lets(["a", "b", dest], types)
+    alias_req("a", "b")
+    w("//@   requires [dest_storage] %s.Raw.arr != a.Raw.arr && %s.Raw.arr != b.Raw.arr" % (dest, dest))
+    for T in types:
+        av, bv, dv = V("a", T), V("b", T), V(dest, T)
+        if incr:
+            w('//@   requires [len_%s] t == rtype("%s") ==> (len(%s) != 1 && len(%s) != 1 ==> len(%s) >= len(%s) && len(%s) >= len(%s)) && (len(%s) == 1 && len(%s) != 1 ==> len(%s) >= len(%s)) && (len(%s) != 1 && len(%s) == 1 ==> len(%s) >= len(%s))'
+              % (T, T, av, bv, bv, av, dv, av, av, bv, bv, dv, av, bv, av, dv))
+        else:
+            w('//@   requires [len_%s] t == rtype("%s") ==> len(%s) >= len(%s) && len(%s) >= len(%s)' % (T, T, av, dv, bv, dv))
+    for T in types:
+        av, bv, dv = V("a", T), V("b", T), V(dest, T)
+        f = binop(op, T)
+        if op == "Div" and T in INTS:
+            continue  # the zero-divisor rule of the integer Div kernels is the subject of known findings; no value clause here
+        if incr:
+            w('//@   ensures [vv_%s] err == nil && t == rtype("%s") && len(%s) != 1 && len(%s) != 1 ==> (forall i :: 0 <= i && i < len(%s) ==> %s[i] == op_Add(old(%s[i]), %s(old(%s[i]), old(%s[i]))))' % (T, T, av, bv, av, dv, dv, f, av, bv))
+        else:
+            w('//@   ensures [vv_%s] err == nil && t == rtype("%s") ==> (forall i :: 0 <= i && i < len(%s) ==> %s[i] == %s(old(%s[i]), old(%s[i])))' % (T, T, dv, dv, f, av, bv))
+    for T in types:
+        av, bv = V("a", T), V("b", T)
+        if incr:
+            w('//@   ensures [operands_%s] t == rtype("%s") && !(len(%s) == 1 && len(%s) == 1) ==> unchanged(%s) && unchanged(%s)' % (T, T, av, bv, av, bv))
+            w('//@   ensures [operands_single_%s] t == rtype("%s") && len(%s) == 1 && len(%s) == 1 ==> unchanged(%s) && unchanged(%s)' % (T, T, av, bv, av, bv))
+        else:
+            w('//@   ensures [operands_%s] t == rtype("%s") ==> unchanged(%s) && unchanged(%s)' % (T, T, av, bv))
+    unsupported(types)
+    if incr:
+        # operand a is in the frame only because the single-element path computes a op b in place in a
+        # (see the operands_single clauses, which do not hold: known finding)
+        # (the single-element path finishes with E.Add(t, incr, a), whose frame spans all of Add's element types)
+        for T in ARITH_T["Add"]:
+            if T not in types:
+                for h in (dest, "a"):
+                    w('//@   let %s = tview("%s", %s)' % (V(h, T), T, h))
+        assigns([dest, "a"], ARITH_T["Add"])
+    else:
+        assigns([dest], types)
+    w("")
+
+for op, types in ARITH_T.items():
+    bin_dest(op + "Incr", op, types, "incr", True)
+    bin_dest(op + "Recv", op, types, "recv", False)
+
 hdr = """//go:build verif
 
 package execution
@@ -281,5 +340,6 @@ package execution
 // compiled only with -tags verif. Generated by /verif/contracts/gen_dispatch.py.
 
 """
-open("/repo/internal/execution/verif_contracts_dispatch.go", "w").write(hdr + "\n".join(out) + "\n")
+import os
+open(os.environ.get("REPO", "/repo") + "/internal/execution/verif_contracts_dispatch.go", "w").write(hdr + "\n".join(out) + "\n")
 print("wrote", len(out), "lines")
